@@ -91,7 +91,13 @@ TOP    == "@top"                 \* proxy kind: stack() -- the top of the LocalS
 PKinds == Names \cup {TOP}       \* proxy kinds: ns(name) for each name, and stack()
 CVK    == "@cv"                  \* LocalProxy(a plain ContextVar without default)
 FNK    == "@fn"                  \* LocalProxy(callable): the callable is the resolver of ns("x")
-AllKinds == PKinds \cup {CVK, FNK}
+\* LocalProxy(ContextVar(.., default=obj)): where the var was never set (or was reset) var.get()
+\* answers the declared default, so the proxy is BOUND to it there; only a var without default
+\* that was never set is unbound.  "@cvd": default = object 4 (truthy), "@cvz": default = object 5
+\* (the int 0: bound and falsy).
+CvdKinds == {"@cvd", "@cvz"}
+CvdDefault(k) == IF k = "@cvd" THEN 4 ELSE 5
+AllKinds == PKinds \cup {CVK, FNK} \cup CvdKinds
 MCKinds  == PKinds               \* kinds enumerated by the bounded models (overridable in a cfg)
 NoBox  == 0
 
@@ -120,7 +126,8 @@ ReleaseOps == {"release", "release_stack", "cleanup", "release_dunder", "release
                "mw", "mw_close", "pop_all"}
 MgrOps     == {"mkmgr", "mgr_append"}
 MgrForms   == {"none", "local", "stack", "both", "lstack"}    \* LocalManager() / (ns) / (stack) / ([ns, stack]) / ([stack])
-KnownOps   == NsOps \cup StackOps \cup ProxyOps \cup ReleaseOps \cup MgrOps \cup {"spawn", "nop", "cv_set", "mw_enter"}
+KnownOps   == NsOps \cup StackOps \cup ProxyOps \cup ReleaseOps \cup MgrOps
+              \cup {"spawn", "nop", "cv_set", "mw_enter", "cvd_set", "cvd_reset", "mw_abandon"}
 ReadOps    == {"get", "iter", "top", "proxy_read"}
 
 \* ---- state ------------------------------------------------------------------------------
@@ -139,7 +146,12 @@ InitState(made0) ==
    made  |-> made0,
    mgr   |-> {"ns", "stack"},      \* what the current LocalManager manages (initially both)
    cvar  |-> [c \in Ctxs |-> NoBox],   \* value of the plain ContextVar behind the @cv proxy
-   infl  |-> {}]                   \* contexts with a request in flight in the manager middleware
+   infl  |-> {},
+   \* the two ContextVars with a default: value set in the context (NoBox = not set there), and
+   \* the values the context's outstanding set() tokens restore (reset() undoes the latest set();
+   \* a token is only valid in the context that created it, a child starts without any)
+   cvd   |-> [c \in Ctxs |-> [k \in CvdKinds |-> NoBox]],
+   cvtok |-> [c \in Ctxs |-> [k \in CvdKinds |-> <<>>]]]                   \* contexts with a request in flight in the manager middleware
 
 \* ---- operations -------------------------------------------------------------------------
 \* op record : [ctx, op, n (name | ""), b (box | 0), v (value), k (proxy kind | ""), child (ctx | 0)]
@@ -155,6 +167,7 @@ TopOf(s) == IF Len(s) = 0 THEN NoBox ELSE s[Len(s)]
 \* the object a proxy of kind k resolves to *in context c* (NoBox: nothing bound there)
 Bound(S, c, k) == IF k = TOP THEN TopOf(S.stack[c])
                   ELSE IF k = CVK THEN S.cvar[c]
+                  ELSE IF k \in CvdKinds THEN (IF S.cvd[c][k] = NoBox THEN CvdDefault(k) ELSE S.cvd[c][k])
                   ELSE IF k = FNK THEN (IF "x" \in Names THEN S.attrs[c]["x"] ELSE NoBox)
                   ELSE S.attrs[c][k]
 BoundNames(S, c) == {n \in Names : S.attrs[c][n] # NoBox}
@@ -168,6 +181,8 @@ Enabled(S, o) ==
        [] o.op = "push"                             -> o.b \in Boxes
        [] o.op = "mkproxy"                          -> o.k \in AllKinds
        [] o.op = "cv_set"                           -> o.b \in Boxes
+       [] o.op = "cvd_set"                          -> o.b \in Boxes /\ o.k \in CvdKinds
+       [] o.op = "cvd_reset"                        -> o.k \in CvdKinds /\ Len(S.cvtok[o.ctx][o.k]) > 0
        [] o.op \in {"proxy_read"} \cup ObjOps       -> o.k \in S.made
        [] o.op = "spawn"                            -> o.child \in Ctxs \ S.alive
        \* (vocabulary: the manager object is not replaced while one of its requests is in flight)
@@ -178,6 +193,9 @@ Enabled(S, o) ==
        [] o.op = "mw_enter" -> /\ o.ctx \notin S.infl /\ o.k \in {"make", "deco"} /\ o.v \in {0, 3}
                                /\ (IF o.n # "" THEN o.n \in Names /\ o.b \in Boxes ELSE o.b \in Boxes \cup {NoBox})
        [] o.op = "mw_close" -> o.ctx \in S.infl /\ o.v \in 0..2
+       \* the unclosed iterable of context o.child's request is handed to context o.ctx, which drops
+       \* the last reference to it and runs the garbage collector
+       [] o.op = "mw_abandon" -> o.child \in S.infl /\ o.child # o.ctx
        [] o.op = "mgr_append"                       -> o.k \in {"local", "stack"}
        \* one request through manager.make_middleware(app) ("make") / @manager.middleware ("deco");
        \* the app binds name n to b (n given), else pushes b (b given), else touches nothing;
@@ -269,7 +287,13 @@ NextOf(S, o) ==
     \* releases in the closing context only, whatever other requests are still in flight
     [] o.op = "mw_enter" -> IF o.v = 3 THEN AppEffect(S, o) ELSE [AppEffect(S, o) EXCEPT !.infl = @ \cup {c}]
     [] o.op = "mw_close" -> ReleaseIn([S EXCEPT !.infl = @ \ {c}], c, S.mgr)
+    \* an abandoned response releases nothing anywhere: certainly not in the context that happens to
+    \* drop it ("releasing a local affects only the releasing context"; nobody released here)
+    [] o.op = "mw_abandon" -> [S EXCEPT !.infl = @ \ {o.child}]
     [] o.op = "cv_set" -> [S EXCEPT !.cvar[c] = o.b]
+    [] o.op = "cvd_set" -> [S EXCEPT !.cvd[c][o.k] = o.b, !.cvtok[c][o.k] = Append(@, S.cvd[c][o.k])]
+    [] o.op = "cvd_reset" -> LET t == S.cvtok[c][o.k] IN
+                             [S EXCEPT !.cvd[c][o.k] = t[Len(t)], !.cvtok[c][o.k] = SubSeq(t, 1, Len(t) - 1)]
     [] o.op = "mkmgr" -> [S EXCEPT !.mgr = MgrOf(o.k)]
     [] o.op = "mgr_append" -> [S EXCEPT !.mgr = @ \cup MgrOf(o.k)]
     [] o.op = "mkproxy" -> [S EXCEPT !.made = @ \cup {o.k}]
@@ -278,7 +302,8 @@ NextOf(S, o) ==
     [] o.op = "spawn" -> [S EXCEPT !.alive = @ \cup {o.child},
                                    !.attrs[o.child] = S.attrs[c],
                                    !.stack[o.child] = S.stack[c],
-                                   !.cvar[o.child] = S.cvar[c]]
+                                   !.cvar[o.child] = S.cvar[c],
+                                   !.cvd[o.child] = S.cvd[c]]
     [] OTHER -> S          \* get, iter, top, proxy_read
 
 \* Outcomes the documentation leaves open (the judge accepts NextOf or this one):
@@ -298,6 +323,7 @@ ViewOf(S, c) == [attrs |-> S.attrs[c], stack |-> S.stack[c],
 \* comparing every context's observed view with the contract state after every step)
 NoLeak(S, o, T) ==            \* an operation in one context changes no sibling's bindings
   \A d \in S.alive : d # o.ctx => T.attrs[d] = S.attrs[d] /\ T.stack[d] = S.stack[d] /\ T.cvar[d] = S.cvar[d]
+                                   /\ T.cvd[d] = S.cvd[d]
 ChildSeesSnapshot(S, o, T) == \* a child starts with exactly the parent's bindings
   o.op = "spawn" => /\ T.attrs[o.child] = S.attrs[o.ctx] /\ T.stack[o.child] = S.stack[o.ctx]
                     /\ T.attrs[o.ctx] = S.attrs[o.ctx]   /\ T.stack[o.ctx] = S.stack[o.ctx]
